@@ -16,12 +16,21 @@ Accepted subset (anything else inside a translated function is a TranslationErro
   IE           `self._data` | tee-bound local | `it.islice(IE, CE)` | `it.chain(IE, IE)` | `xmap(func, IE)` |
                `xfilter(func, IE)` | `g(IE)` (the nested generator) | `Stream(*other)._data`
   RET          `next(IE)` | `constructor(IE)` | `self` | `Stream(IE)` | `self.copy().take(n=CE, constructor=constructor)`
+  Stream.__init__  a tree of `if C: … elif C: … else: …` with ONE statement per arm; C = `len(dargs) == k` |
+               `isinstance(dargs[0], Iterable)` | `all(isinstance(v, Iterable) for v in dargs)` |
+               `not any(isinstance(v, Iterable) for v in dargs)`; leaves `raise Name(...)` | `self._data = ` `iter(dargs[0])` |
+               `it.repeat(dargs[0])` | `it.chain(*[iter(v) for v in dargs])` | `it.cycle(dargs)`
+  thub         `return ARM if isinstance(name, name) else ARM`, ARM = `data` | `StreamTeeHub(names)`
+  hub __init__ `super(StreamTeeHub, self).__init__(names)` | `v = super(StreamTeeHub, self).__iter__()` |
+               `self._iters = list(it.tee(name, name))`
+  tee          `if isinstance(name, (names)): return ARM` `else: return ARM` (or fall-through), ARM =
+               `tuple(Stream(v) for v in it.tee(name, name))` | `tuple(name for v in xrange(name))`
   hub methods  `name = wraps(Stream.name)(lambda self, PARAMS: Stream(self).METH(ARGS))` |
                `if self._iters:` BODY-with-`self._iters[0]`-as-data-slot, then `iter(self)` |
                `try: return self._iters.pop()  except IndexError: raise Name(...)` | a plain body
 
 Normalised away: whitespace, comments, docstrings, the names of tee-bound locals (renamed t0, t1, … in binding
-order), the name of the nested generator and of its loop variables, the message of a `raise`.
+order; locals of StreamTeeHub.__init__: v0, v1, …), the generator variables of tee and of Stream.__init__, the name of the nested generator and of its loop variables, the message of a `raise`.
 """
 import ast
 import os
@@ -36,13 +45,8 @@ HUB_DEFS = ("take", "copy", "__iter__")
 HUB_LAMBDAS = ("limit", "skip", "append", "map", "filter")
 # anchored functions that stay hand-modelled (reported in the evidence)
 NOT_TRANSLATED = {
-    "Stream.__init__": "argument-list rules (len / isinstance(., Iterable) / all / any over *dargs): hand model elabArgs / mkSrc, "
-                       "tied by the `calls` histories",
     "Stream.__iter__": "`return self._data`: the object plumbing of the history model (pool of objects), no body to translate",
-    "StreamTeeHub.__init__": "super().__init__ / super().__iter__ / list(it.tee(., n)): hand model (step .thub, replicate n), tied by histories",
     "StreamTeeHub.__del__": "object-lifetime effect outside the Lean model (behavioural extra check)",
-    "thub": "one conditional expression on isinstance(data, Iterable): hand model (step .thub / elabCall .thub)",
-    "lazy_itertools.tee": "isinstance(data, (Stream, Iterator)) dispatch + generator expressions over it.tee: hand model (step .tee / elabCall .tee)",
     "count spellings (elabTake / elabLimit / elabSkip)": "what CPython's isinf / round / islice accept for bool, Fraction, huge ints: "
                                                         "semantics of builtins, not source text of the repo",
 }
@@ -54,6 +58,14 @@ class TranslationError(Exception):
 
 def _fail(node, what):
     raise TranslationError("line %s: %s: %s" % (getattr(node, "lineno", "?"), what, ast.unparse(node)[:100]))
+
+
+ISRC_REL = os.path.join("audiolazy", "lazy_itertools.py")
+
+
+def read_isource():
+    with open(os.path.join(common.REPO, ISRC_REL)) as f:
+        return f.read()
 
 
 def read_source():
@@ -375,6 +387,199 @@ def hub_def(fn):
 
 
 # ------------------------------------------------------------------------------------------------
+# thub / StreamTeeHub.__init__
+# ------------------------------------------------------------------------------------------------
+def _names(args, node):
+    if not all(isinstance(a, ast.Name) for a in args):
+        _fail(node, "arguments outside the subset (plain names)")
+    return _lean_list('"%s"' % a.id for a in args)
+
+
+def thub_def(fn):
+    """`return StreamTeeHub(data, n) if isinstance(data, Iterable) else data`"""
+    body = [s for s in fn.body if not _is_doc(s)]
+    if fn.decorator_list or len(body) != 1 or not isinstance(body[0], ast.Return) or not isinstance(body[0].value, ast.IfExp):
+        _fail(fn, "thub outside the subset (one `return A if isinstance(x, K) else B`)")
+    e = body[0].value
+    t = e.test
+    if not (_plain_call(t, 2) and _is_name(t.func, "isinstance") and all(isinstance(a, ast.Name) for a in t.args)):
+        _fail(t, "thub: test outside the subset (isinstance(name, name))")
+
+    def arm(node):
+        if _is_name(node, "data"):
+            return ".data"
+        if isinstance(node, ast.Call) and _is_name(node.func, "StreamTeeHub") and not node.keywords:
+            return "(.mkHub %s)" % _names(node.args, node)
+        _fail(node, "thub: arm outside the subset (`data` | `StreamTeeHub(names)`)")
+    return '{ test := ("%s", "%s"), thenR := %s, elseR := %s }' % (t.args[0].id, t.args[1].id, arm(e.body), arm(e.orelse))
+
+
+def _super_call(node, attr):
+    """`super(StreamTeeHub, self).<attr>(...)` -> its argument list, or None"""
+    if not (isinstance(node, ast.Call) and not node.keywords and isinstance(node.func, ast.Attribute)
+            and node.func.attr == attr):
+        return None
+    sup = node.func.value
+    if not (_plain_call(sup, 2) and _is_name(sup.func, "super") and _is_name(sup.args[0], "StreamTeeHub")
+            and _is_name(sup.args[1], "self")):
+        return None
+    return node.args
+
+
+def hub_init(fn):
+    if fn.decorator_list:
+        _fail(fn, "decorated method")
+    loc, out = {}, []
+    ref = lambda n: loc.get(n.id, n.id)
+    for s in fn.body:
+        if _is_doc(s):
+            continue
+        if isinstance(s, ast.Expr):
+            args = _super_call(s.value, "__init__")
+            if args is not None:
+                out.append("(.superInit %s)" % _names(args, s))
+                continue
+        if isinstance(s, ast.Assign) and len(s.targets) == 1:
+            t, v = s.targets[0], s.value
+            if isinstance(t, ast.Name) and _super_call(v, "__iter__") == []:
+                loc.setdefault(t.id, "v%d" % len(loc))
+                out.append('(.bindSuperIter "%s")' % loc[t.id])
+                continue
+            if (_is_self_attr(t, "_iters") and _plain_call(v, 1) and _is_name(v.func, "list") and _plain_call(v.args[0], 2)
+                    and _is_it(v.args[0].func, "tee") and all(isinstance(a, ast.Name) for a in v.args[0].args)):
+                a, b = v.args[0].args
+                out.append('(.setIters "%s" "%s")' % (ref(a), ref(b)))
+                continue
+        _fail(s, "StreamTeeHub.__init__: statement outside the subset")
+    return _lean_list(out)
+
+
+# ------------------------------------------------------------------------------------------------
+# Stream.__init__
+# ------------------------------------------------------------------------------------------------
+def stream_init(fn):
+    """the if / elif / else tree over `*dargs` -> an `ITree` term"""
+    a = fn.args
+    if fn.decorator_list or a.vararg is None or a.kwarg or a.kwonlyargs or a.defaults or len(a.args) != 1:
+        _fail(fn, "Stream.__init__: signature outside the subset (self, *args)")
+    da = a.vararg.arg
+
+    def arg0(node):
+        return (isinstance(node, ast.Subscript) and _is_name(node.value, da) and isinstance(node.slice, ast.Constant)
+                and type(node.slice.value) is int and node.slice.value == 0)
+
+    def each_iterable(node, fname):
+        """`fname(isinstance(v, Iterable) for v in dargs)`"""
+        if not (_plain_call(node, 1) and _is_name(node.func, fname) and isinstance(node.args[0], ast.GeneratorExp)):
+            return False
+        g = node.args[0]
+        if len(g.generators) != 1:
+            return False
+        c = g.generators[0]
+        return (not c.ifs and not c.is_async and isinstance(c.target, ast.Name) and _is_name(c.iter, da)
+                and _plain_call(g.elt, 2) and _is_name(g.elt.func, "isinstance") and _is_name(g.elt.args[0], c.target.id)
+                and _is_name(g.elt.args[1], "Iterable"))
+
+    def icond(node):
+        if (isinstance(node, ast.Compare) and len(node.ops) == 1 and isinstance(node.ops[0], ast.Eq)
+                and _plain_call(node.left, 1) and _is_name(node.left.func, "len") and _is_name(node.left.args[0], da)
+                and isinstance(node.comparators[0], ast.Constant) and type(node.comparators[0].value) is int
+                and node.comparators[0].value >= 0):
+            return "(.lenEq %d)" % node.comparators[0].value
+        if _plain_call(node, 2) and _is_name(node.func, "isinstance") and arg0(node.args[0]) \
+                and _is_name(node.args[1], "Iterable"):
+            return ".isIter0"
+        if each_iterable(node, "all"):
+            return ".allIter"
+        if isinstance(node, ast.UnaryOp) and isinstance(node.op, ast.Not) and each_iterable(node.operand, "any"):
+            return ".noneIter"
+        _fail(node, "Stream.__init__: condition outside the subset")
+
+    def idata(node):
+        if _plain_call(node, 1) and _is_name(node.func, "iter") and arg0(node.args[0]):
+            return ".iter0"
+        if _plain_call(node, 1) and _is_it(node.func, "repeat") and arg0(node.args[0]):
+            return ".repeat0"
+        if _plain_call(node, 1) and _is_it(node.func, "cycle") and _is_name(node.args[0], da):
+            return ".cycleArgs"
+        if (isinstance(node, ast.Call) and _is_it(node.func, "chain") and not node.keywords and len(node.args) == 1
+                and isinstance(node.args[0], ast.Starred) and isinstance(node.args[0].value, ast.ListComp)):
+            lc = node.args[0].value
+            c = lc.generators[0] if len(lc.generators) == 1 else None
+            if (c is not None and not c.ifs and not c.is_async and isinstance(c.target, ast.Name) and _is_name(c.iter, da)
+                    and _plain_call(lc.elt, 1) and _is_name(lc.elt.func, "iter") and _is_name(lc.elt.args[0], c.target.id)):
+                return ".chainIters"
+        _fail(node, "Stream.__init__: data expression outside the subset")
+
+    def block(body):
+        body = [s for s in body if not _is_doc(s)]
+        if len(body) != 1:
+            _fail(fn if not body else body[0], "Stream.__init__: one statement per arm")
+        s = body[0]
+        if isinstance(s, ast.Raise):
+            return '(.raise "%s")' % _raise_kind(s)
+        if isinstance(s, ast.Assign) and len(s.targets) == 1 and _is_data(s.targets[0]):
+            return "(.setData %s)" % idata(s.value)
+        if isinstance(s, ast.If):
+            if not s.orelse:
+                _fail(s, "Stream.__init__: an `if` without `else` (the data slot may stay unset)")
+            return "(.ite %s %s %s)" % (icond(s.test), block(s.body), block(s.orelse))
+        _fail(s, "Stream.__init__: statement outside the subset")
+    return block(fn.body)
+
+
+# ------------------------------------------------------------------------------------------------
+# lazy_itertools.tee
+# ------------------------------------------------------------------------------------------------
+def _tuple_genexp(node):
+    """`tuple(ELT for v in ITER)` -> (ELT, v, ITER) or None"""
+    if not (_plain_call(node, 1) and _is_name(node.func, "tuple") and isinstance(node.args[0], ast.GeneratorExp)):
+        return None
+    g = node.args[0]
+    if len(g.generators) != 1:
+        return None
+    c = g.generators[0]
+    if c.ifs or c.is_async or not isinstance(c.target, ast.Name):
+        return None
+    return g.elt, c.target.id, c.iter
+
+
+def tee_def(fn):
+    """`if isinstance(data, (K, ...)): return tuple(Stream(cp) for cp in it.tee(data, n))` /
+       `else: return tuple(data for unused in xrange(n))` (the else may be spelled as the statement after the if)"""
+    body = [s for s in fn.body if not _is_doc(s)]
+    if fn.decorator_list or not body or not isinstance(body[0], ast.If) or len(body[0].body) != 1:
+        _fail(fn, "tee outside the subset (if isinstance(...): return ... else: return ...)")
+    i = body[0]
+    rest = i.orelse if i.orelse else body[1:]
+    if (i.orelse and len(body) != 1) or len(rest) != 1 or not isinstance(i.body[0], ast.Return) \
+            or not isinstance(rest[0], ast.Return):
+        _fail(fn, "tee outside the subset (one return per arm)")
+    t = i.test
+    if not (_plain_call(t, 2) and _is_name(t.func, "isinstance") and isinstance(t.args[0], ast.Name)):
+        _fail(t, "tee: test outside the subset")
+    k = t.args[1]
+    ks = k.elts if isinstance(k, ast.Tuple) else [k]
+    if not all(isinstance(x, ast.Name) for x in ks):
+        _fail(t, "tee: classes outside the subset (names)")
+
+    def arm(r):
+        got = _tuple_genexp(r.value) if r.value is not None else None
+        if got is None:
+            _fail(r, "tee: arm outside the subset (tuple(generator expression))")
+        elt, v, src = got
+        if (_plain_call(elt, 1) and _is_name(elt.func, "Stream") and _is_name(elt.args[0], v) and _plain_call(src, 2)
+                and _is_it(src.func, "tee") and all(isinstance(a, ast.Name) and a.id != v for a in src.args)):
+            return '(.streamsOfTee "%s" "%s")' % (src.args[0].id, src.args[1].id)
+        if (isinstance(elt, ast.Name) and elt.id != v and _plain_call(src, 1) and _is_name(src.func, "xrange")
+                and isinstance(src.args[0], ast.Name) and src.args[0].id != v):
+            return '(.repeatOf "%s" "%s")' % (elt.id, src.args[0].id)
+        _fail(r, "tee: arm outside the subset")
+    return '{ test := ("%s", %s), thenR := %s, elseR := %s }' % (
+        t.args[0].id, _lean_list('"%s"' % x.id for x in ks), arm(i.body[0]), arm(rest[0]))
+
+
+# ------------------------------------------------------------------------------------------------
 # the whole file
 # ------------------------------------------------------------------------------------------------
 def _class(tree, name):
@@ -405,9 +610,11 @@ def _one(members, cls, name, kind):
     return got[0]
 
 
-def parse(text):
-    """-> (progs [(field, lean term)], sigs [(qualified name, [(param, default|None)])])"""
+def parse(text, itext=None):
+    """-> (progs [(field, lean term)], sigs [(qualified name, [(param, default|None)])]);
+    `text`: lazy_stream.py, `itext`: lazy_itertools.py (read from the repo under test when not given)"""
     tree = ast.parse(text)
+    itree = ast.parse(read_isource() if itext is None else itext)
     sm, hm = _members(_class(tree, "Stream")), _members(_class(tree, "StreamTeeHub"))
     progs, sigs = [], []
     for m in STREAM_METHODS:
@@ -427,6 +634,22 @@ def parse(text):
         term, sig = hub_lambda(m, _one(hm, "StreamTeeHub", m, ast.Call))
         progs.append(("hub" + m.capitalize(), term))
         sigs.append(("StreamTeeHub." + m, sig))
+    fn = _one(hm, "StreamTeeHub", "__init__", ast.FunctionDef)
+    init_term, init_sig = hub_init(fn), ("StreamTeeHub.__init__", _sig(fn))
+    found = [n for n in tree.body if isinstance(n, ast.FunctionDef) and n.name == "thub"]
+    if len(found) != 1:
+        raise TranslationError("thub: found %d times" % len(found))
+    progs.append(("thub", thub_def(found[0])))
+    progs.append(("hubInit", init_term))
+    sigs += [init_sig, ("thub", _sig(found[0]))]
+    fn = _one(sm, "Stream", "__init__", ast.FunctionDef)
+    progs.append(("init", stream_init(fn)))
+    sigs.append(("Stream.__init__", _sig(fn)))
+    found = [n for n in itree.body if isinstance(n, ast.FunctionDef) and n.name == "tee"]
+    if len(found) != 1:
+        raise TranslationError("lazy_itertools.tee: found %d times" % len(found))
+    progs.append(("tee", tee_def(found[0])))
+    sigs.append(("lazy_itertools.tee", _sig(found[0])))
     # a StreamTeeHub method that is translated for Stream and silently overridden otherwise would escape: refuse
     extra = sorted(set(hm) & set(STREAM_METHODS) - set(HUB_DEFS) - set(HUB_LAMBDAS))
     if extra:
@@ -440,16 +663,17 @@ def _lean_str(s):
     return '"%s"' % s
 
 
-def translate(text):
-    progs, sigs = parse(text)
+def translate(text, itext=None):
+    progs, sigs = parse(text, itext)
     lines = ["/- GENERATED by harness/props/c03_tr.py from audiolazy/lazy_stream.py (method bodies and signatures of",
-             "   Stream / StreamTeeHub read with `ast`).  Do not edit: rewritten on every check. -/",
+             "   Stream / StreamTeeHub, thub) and audiolazy/lazy_itertools.py (tee), read with `ast`.",
+             "   Do not edit: rewritten on every check. -/",
              "import ALV.Model.C03Src", "namespace ALV.Gen.C03", "open ALV.C03.Src", ""]
     for name, term in progs:
-        ty = "HubBody" if name.startswith("hub") else "Body"
+        ty = {"thub": "ThubBody", "hubInit": "List HIStmt", "tee": "TeeBody", "init": "ITree"}.get(name, "HubBody" if name.startswith("hub") else "Body")
         lines += ["def %s : %s :=" % (name if name != "filter" else "filter", ty), "  " + term, ""]
     lines += ["def progs : Progs :=",
-              "  { " + ", ".join("%s := %s" % (n, n) for n, _ in progs) + " }", "",
+              "  { " + ", ".join("%s := %s" % (n, n) for n, _ in progs if n != "init") + " }", "",
               "/-- (qualified name, parameters with the source text of their default) -/",
               "def sigs : List (String × List (String × Option String)) := ["]
     rows = []
@@ -509,9 +733,45 @@ EDITS = [
     ("hub copy: first copy not rebound", "      self._iters[0] = a\n      return Stream(b)", "      return Stream(b)"),
     ("hub skip: goes to limit", "lambda self, n: Stream(self).skip(n)", "lambda self, n: Stream(self).limit(n)"),
     ("hub map: Stream(self) dropped", "lambda self, func: Stream(self).map(func))", "lambda self, func: Stream.map(self, func))"),
+    ("thub: arms of the conditional swapped", "return StreamTeeHub(data, n) if isinstance(data, Iterable) else data",
+     "return data if isinstance(data, Iterable) else StreamTeeHub(data, n)"),
+    ("thub: Iterator instead of Iterable", "isinstance(data, Iterable) else data", "isinstance(data, Iterator) else data"),
+    ("thub: arguments of StreamTeeHub swapped", "return StreamTeeHub(data, n) if", "return StreamTeeHub(n, data) if"),
+    ("hub init: tee over data instead of the hub's own iterator", "list(it.tee(iter_self, n))", "list(it.tee(data, n))"),
+    ("hub init: constant number of copies", "list(it.tee(iter_self, n))", "list(it.tee(iter_self, 2))"),
+    ("hub init: iterator asked before Stream.__init__ has run",
+     "    super(StreamTeeHub, self).__init__(data)\n    iter_self = super(StreamTeeHub, self).__iter__()\n",
+     "    iter_self = super(StreamTeeHub, self).__iter__()\n    super(StreamTeeHub, self).__init__(data)\n"),
+    ("hub init: parameters swapped", "def __init__(self, data, n):\n    super(StreamTeeHub", "def __init__(self, n, data):\n    super(StreamTeeHub"),
+    ("tee: Stream dropped from the isinstance test", "if isinstance(data, (Stream, Iterator)):", "if isinstance(data, Iterator):"),
+    ("tee: the copies are not wrapped in Stream", "return tuple(Stream(cp) for cp in it.tee(data, n))",
+     "return tuple(cp for cp in it.tee(data, n))"),
+    ("tee: arms swapped", "    return tuple(Stream(cp) for cp in it.tee(data, n))\n  else:\n    return tuple(data for unused in xrange(n))",
+     "    return tuple(data for unused in xrange(n))\n  else:\n    return tuple(Stream(cp) for cp in it.tee(data, n))"),
+    ("tee: default of n changed", "def tee(data, n=2):", "def tee(data, n=3):"),
+    ("init: no-argument error kind", 'raise TypeError("Missing argument(s)")', 'raise ValueError("Missing argument(s)")'),
+    ("init: one-argument arms swapped", "        self._data = iter(dargs[0])\n      else:\n        self._data = it.repeat(dargs[0])",
+     "        self._data = it.repeat(dargs[0])\n      else:\n        self._data = iter(dargs[0])"),
+    ("init: all replaced by any", "if all(isinstance(arg, Iterable) for arg in dargs):", "if any(isinstance(arg, Iterable) for arg in dargs):"),
+    ("init: mixed arguments cycle instead of raising", "elif not any(isinstance(arg, Iterable) for arg in dargs):\n        self._data = it.cycle(dargs)\n      else:\n        raise TypeError(",
+     "else:\n        self._data = it.cycle(dargs)\n        raise TypeError("),
+    ("init: iterators of the chain asked lazily", "it.chain(*[iter(arg) for arg in dargs])", "it.chain(*dargs)"),
+    ("init: len test 1 -> 2", "elif len(dargs) == 1:", "elif len(dargs) == 2:"),
     ("take: default of n changed", "def take(self, n=None, constructor=list):", "def take(self, n=1, constructor=list):"),
 ]
+IHARMLESS = [
+    ("tee: generator variables renamed, else spelled as fall-through",
+     "    return tuple(Stream(cp) for cp in it.tee(data, n))\n  else:\n    return tuple(data for unused in xrange(n))",
+     "    return tuple(Stream(c) for c in it.tee(data, n))\n  return tuple(data for _ in xrange(n))"),
+]
 HARMLESS = [
+    ("init: generator variables renamed, comment dropped",
+     "      if all(isinstance(arg, Iterable) for arg in dargs):", "      if all(isinstance(a, Iterable) for a in dargs):",
+     "        self._data = it.chain(*[iter(arg) for arg in dargs])", "        self._data = it.chain(*[iter(x) for x in dargs])",
+     "      elif not any(isinstance(arg, Iterable) for arg in dargs):\n        self._data = it.cycle(dargs)",
+     "      elif not any(isinstance(y, Iterable) for y in dargs):\n\n        self._data = it.cycle(dargs)"),
+    ("hub init: local renamed", "    iter_self = super(StreamTeeHub, self).__iter__()\n    self._iters = list(it.tee(iter_self, n))",
+     "    mine = super(StreamTeeHub, self).__iter__()\n    self._iters = list(it.tee(mine, n))"),
     ("comments / blank lines / docstring", "    a, b = it.tee(self._data) # 2 generators, not thread-safe",
      "    a, b = it.tee(self._data)\n\n    # two generators"),
     ("tee locals renamed", "    a, b = it.tee(self._data) # 2 generators, not thread-safe\n    self._data = a\n    return Stream(b)",
@@ -524,12 +784,13 @@ HARMLESS = [
 ]
 
 
-def selftest(text=None, committed=None):
+def selftest(text=None, committed=None, itext=None):
     """-> list of (name, ok, detail)"""
     text = read_source() if text is None else text
+    itext = read_isource() if itext is None else itext
     out = []
     try:
-        base = translate(text)
+        base = translate(text, itext)
     except Exception as e:
         return [("translator-selftest", False, "the unchanged source does not translate: %s" % e)]
     if committed is not None:
@@ -539,6 +800,20 @@ def selftest(text=None, committed=None):
                     "lean/%s: %d bytes generated, %d committed" % (GEN_REL, len(base), len(committed))))
     missed, inapplicable, how = [], [], {}
     for name, old, new in EDITS:
+        if name.startswith("tee:"):                          # an edit of lazy_itertools.py
+            if itext.count(old) != 1:
+                inapplicable.append(name)
+                continue
+            try:
+                got = translate(text, itext.replace(old, new))
+                how[name] = "different text" if got != base else "SAME TEXT"
+                if got == base:
+                    missed.append(name)
+            except TranslationError:
+                how[name] = "TranslationError"
+            except SyntaxError:
+                missed.append(name + " (edit does not parse)")
+            continue
         if text.count(old) != 1 and not name.startswith("hub"):
             inapplicable.append(name)
             continue
@@ -549,7 +824,7 @@ def selftest(text=None, committed=None):
         k = text.rfind(old)
         edited = text[:k] + new + text[k + len(old):]
         try:
-            got = translate(edited)
+            got = translate(edited, itext)
             how[name] = "different text" if got != base else "SAME TEXT"
             if got == base:
                 missed.append(name)
@@ -563,6 +838,13 @@ def selftest(text=None, committed=None):
                 "missed %r; edits whose anchor text is not in the source under test (not applied) %r; %r"
                 % (missed, inapplicable, how)))
     noisy = []
+    for name, old, new in IHARMLESS:
+        if itext.count(old) == 1:
+            try:
+                if translate(text, itext.replace(old, new)) != base:
+                    noisy.append(name)
+            except Exception as e:
+                noisy.append("%s (%s)" % (name, e))
     for name, *pairs in HARMLESS:
         edited = text
         for old, new in zip(pairs[0::2], pairs[1::2]):
@@ -573,11 +855,11 @@ def selftest(text=None, committed=None):
         if edited is None:
             continue
         try:
-            if translate(edited) != base:
+            if translate(edited, itext) != base:
                 noisy.append(name)
         except Exception as e:
             noisy.append("%s (%s)" % (name, e))
-    out.append(("translator-normalises-harmless-rewrites(%d)" % len(HARMLESS), not noisy, "changed the output: %r" % (noisy,)))
+    out.append(("translator-normalises-harmless-rewrites(%d)" % (len(HARMLESS) + len(IHARMLESS)), not noisy, "changed the output: %r" % (noisy,)))
     return out
 
 
